@@ -29,6 +29,8 @@ Data == [ anycap |-> VLg(I3, "anycap"),               \* []interface{} with spar
           strs   |-> VLg(S3, "strs"),
           arr3   |-> VLg(I3, "arr3"),                 \* [3]int
           any    |-> VL(I3),
+          \* forty strings k40 .. k01 in descending order: what holds for a list of three holds for a long one
+          long   |-> VL([i \in 1..40 |-> VS(<<107, 48 + ((41 - i) \div 10), 48 + ((41 - i) % 10)>>)]),
           tags   |-> VLg(S3, "tags"),                 \* type Tags []string
           i64s   |-> VLg(I3, "i64s"),                 \* []int64
           f32s   |-> VLg(I3, "f32s"),                 \* []float32
